@@ -40,7 +40,7 @@ mod imp {
     }
 
     pub fn cell_f(c: f64) -> Cell { Cell::F(c) }
-    pub fn cell_o(c: Option<f64>) -> Cell { match c { Some(x) => Cell::F(x), None => Cell::Null } }
+    pub fn cell_o(c: Option<f64>) -> Cell { match c { Some(x) if x.is_nan() => Cell::Err, Some(x) => Cell::F(x), None => Cell::Null } }   // Some(NaN) is not a null (DESIGN 5.4)
 
     macro_rules! per_type {
         ($T:ty, $spear:ident, $hl:ident, $ac:ident, $tocell:ident) => {
